@@ -65,10 +65,13 @@ class Tracer:
         sys.settrace(None)
 
 
+HF = [None]  # hash strategy of the history being replayed (None = the default FNV-1a)
+
+
 def reference_bytes(n, p, adds, count=None):
     """export of an in-memory filter with the same history; an entry "!k" is an add of key k that raises
     part-way (short hash list): whatever bits it sets it also sets here, but it is not a completed addition"""
-    f = BloomFilter(n, p)
+    f = BloomFilter(n, p, hash_function=HF[0])
     done = 0
     for k in adds:
         if k.startswith("!"):
@@ -84,7 +87,7 @@ def reference_bytes(n, p, adds, count=None):
 
 
 def key_bits(n, p, k):
-    f = BloomFilter(n, p)
+    f = BloomFilter(n, p, hash_function=HF[0])
     return [h % f.number_bits for h in f.hashes(KEYS[k])]
 
 
@@ -321,11 +324,15 @@ def replay_histories(depth):
     return out
 
 
-def run_replay_history(n, p, mode, hist, props, bad):
+def run_replay_history(n, p, mode, hist, props, bad, strat="fnv"):
     """mode: how the file was named at creation: 'cwd' (bare name), 'sub' (relative path with a
     sub-directory), 'abs'.  Oracles are evaluated after the LAST op (prefixes are histories too)."""
     root = tempfile.mkdtemp(prefix="vdh")
     home = os.getcwd()
+    from mc import keys as K
+
+    HF[0] = None if strat == "fnv" else K.SHIPPED[strat]
+    hf = HF[0]
     try:
         work = os.path.join(root, "work")
         away = os.path.join(root, "away")
@@ -334,7 +341,7 @@ def run_replay_history(n, p, mode, hist, props, bad):
         os.chdir(work)
         name = {"cwd": "f.blm", "sub": os.path.join("sub", "f.blm"), "abs": os.path.join(work, "f.blm")}[mode]
         path = os.path.abspath(name)
-        f = BloomFilterOnDisk(name, n, p)
+        f = BloomFilterOnDisk(name, n, p, hash_function=hf)
         adds = []
         total_adds = 0
         where = {"mode": mode, "history": hist}
@@ -370,7 +377,7 @@ def run_replay_history(n, p, mode, hist, props, bad):
                     f.current_false_positive_rate()
                     f.export_size()
                     f.export_hex()
-                    mem = BloomFilter(n, p)
+                    mem = BloomFilter(n, p, hash_function=hf)
                     mem.add("m")
                     mem.union(f), mem.intersection(f), mem.jaccard_index(f)
                     f.union(mem), f.intersection(mem), f.jaccard_index(mem)
@@ -381,13 +388,13 @@ def run_replay_history(n, p, mode, hist, props, bad):
                     kind = op.split(":")[1]
                     if kind == "same":
                         os.chdir(work)
-                        f = BloomFilterOnDisk(name)
+                        f = BloomFilterOnDisk(name, hash_function=hf)
                     elif kind == "chdir":
                         os.chdir(away)
-                        f = BloomFilterOnDisk(path)
+                        f = BloomFilterOnDisk(path, hash_function=hf)
                     else:  # relative path from the parent directory
                         os.chdir(root)
-                        f = BloomFilterOnDisk(os.path.relpath(path, root))
+                        f = BloomFilterOnDisk(os.path.relpath(path, root), hash_function=hf)
                     if final:
                         done = [k for k in adds if not k.startswith("!")]
                         for k in set(done):
@@ -405,7 +412,7 @@ def run_replay_history(n, p, mode, hist, props, bad):
                         exp = read_file(dest)
                         if exp != read_file(path):
                             bad("C05", "disk.export_is_copy_of_file", {**where})
-                        g = BloomFilter(filepath=dest)
+                        g = BloomFilter(filepath=dest, hash_function=hf)
                         if [g.check(k) for k in KEYS.values()] != [f.check(k) for k in KEYS.values()] or g.elements_added != f.elements_added:
                             bad("C05", "disk.export_loads_identically", {**where})
                         if bytes(g) != exp:
@@ -434,6 +441,31 @@ def run_replay_history(n, p, mode, hist, props, bad):
                 bad("C11", orc, {**where, "file": blob.hex(), "expected": ref.hex()})
                 if op == "clear":
                     bad("C19", "disk.clear_equals_fresh", {**where, "file": blob.hex(), "fresh": ref.hex()})
+            if "C06" in props and hf is None and not any(k.startswith("!") for k in all_adds):
+                # the backing file is the C-compatible export at every op boundary: independent C reader / writer
+                from mc import cref
+
+                r = cref.ask("bloom-check", blob.hex(), *[cref.hx(k) for k in ("alpha", b"bravo-bytes", "absent-1")])
+                mem = BloomFilter(n, p)
+                for k in adds:
+                    mem.add(KEYS[k])
+                want = [int(mem.check(k)) for k in ("alpha", b"bravo-bytes", "absent-1")]
+                if r[0] != "ok" or "MISMATCH" in r[1]:
+                    bad("C06", "disk.c_reader_accepts_file", {**where, "reply": r})
+                else:
+                    head, ans = r[1].split(":")
+                    if head.split()[2] != "1" and [int(x) for x in ans.split()] != want:
+                        bad("C06", "disk.c_reader_agrees", {**where, "c": ans, "expected": want})
+                cadds = [k for k in adds if k != "c"]  # "chärlie" is non-ASCII text: outside the C-compatible claim
+                if len(cadds) == len(adds):
+                    w = cref.ask("bloom-write", n, repr(p), len(adds), *[cref.hx(KEYS[k]) for k in adds])
+                    if w[0] != "ok" or (w[1].split()[0] != "1" and bytes.fromhex(w[1].split()[1]) != blob):
+                        bad("C06", "disk.c_writer_same_file", {**where, "c": w[1][:200] if w[0] == "ok" else w, "file": blob.hex()})
+            if "C14" in props and not closed:
+                # statistics of the on-disk filter are the standard functions of (set bits, counter)
+                from mc import bloomlib
+
+                bloomlib.stats_oracle(f, False, None, lambda pr, o, d: bad(pr, o, {**where, **d}), tag="disk")
             if not closed:
                 if f.elements_added != len(adds):
                     bad("C14", "disk.elements_added_is_add_calls", {**where, "obs": f.elements_added, "expected": len(adds)})
@@ -451,13 +483,14 @@ def run_replay_history(n, p, mode, hist, props, bad):
         except Exception:  # noqa: BLE001
             pass
     finally:
+        HF[0] = None
         os.chdir(home)
         shutil.rmtree(root, ignore_errors=True)
 
 
 class DiskSystem(System):
     name = "disk"
-    serves = ("C11", "C01", "C05", "C14", "C19")
+    serves = ("C11", "C01", "C05", "C06", "C14", "C19")
     rule = (
         "BloomFilterOnDisk, geometries (10,0.05) [63 bits: partial last byte] and (3,0.3). Part A: every history of "
         "<= 3 (thorough 4) operations over {add a, add b, add a again, close, export to another path}; every 'line' "
@@ -477,7 +510,11 @@ class DiskSystem(System):
             if prop == "C11":
                 cfgs.append(dict(part="crash", n=n, p=p, depth=3 if quick else 4, cost=20000 if quick else 200000))
             for mode in ("cwd", "sub", "abs"):
-                cfgs.append(dict(part="replay", n=n, p=p, mode=mode, depth=(4 if prop == "C11" else 3) if quick else 5, cost=15000))
+                cfgs.append(dict(part="replay", n=n, p=p, mode=mode, strat="fnv", depth=(4 if prop == "C11" else 3) if quick else 5,
+                                 cost=15000))
+            # a supplied (non-default) hash strategy has to be re-supplied on reopen and must then be honoured
+            cfgs.append(dict(part="replay", n=n, p=p, mode="sub", strat="md5", depth=(4 if prop == "C11" else 3) if quick else 5,
+                             cost=15000))
         if prop == "C11":
             for h in ([["add:a", "add:b", "close"]] if quick else [["add:a", "add:b", "close"], ["add:a", "export", "add:b"], ["add:b", "add:b", "close"]]):
                 cfgs.append(dict(part="sigkill", n=10, p=0.05, ops=h, stride=2 if quick else 1, cost=20000))
@@ -504,7 +541,9 @@ class DiskSystem(System):
         else:
             hists = replay_histories(cfg["depth"])
             for h in hists:
-                run_replay_history(cfg["n"], cfg["p"], cfg["mode"], h, props, bad_factory({"part": "replay", "n": cfg["n"], "p": cfg["p"], "mode": cfg["mode"], "ops": h}))
+                run_replay_history(cfg["n"], cfg["p"], cfg["mode"], h, props,
+                                   bad_factory({"part": "replay", "n": cfg["n"], "p": cfg["p"], "mode": cfg["mode"], "ops": h,
+                                                "strat": cfg.get("strat", "fnv")}), cfg.get("strat", "fnv"))
                 res.transitions += len(h)
             res.states = len(hists)
             res.nontrivial_states = sum(1 for h in hists if any(o.startswith("reopen") for o in h))
@@ -528,7 +567,7 @@ class DiskSystem(System):
 
         h = history
         if h["part"] == "replay":
-            run_replay_history(h["n"], h["p"], h["mode"], h["ops"], props, bad)
+            run_replay_history(h["n"], h["p"], h["mode"], h["ops"], props, bad, h.get("strat", "fnv"))
         elif h["part"] == "crash":
             log = []
             results, final, _, _ = run_crash_history(h["n"], h["p"], h["ops"], lambda ctx, snap: log.append((ctx, snap)))
